@@ -7,7 +7,7 @@ type = oto | m2m | fd ; a token is `/`-separated, objects are natural-number ids
 
 oto:  N/<pairs>  NR/<r>/<s>/<kw>  Q/<pairs>  QR/<r>/<s>/<kw>  C/<r>/<s>
       S/<r>/<s>/<k>/<v>  D/<r>/<s>/<k>  U/<r>/<s>/<pairs>  UR/<r>/<s>/<r2>/<s2>/<kw>
-      F/<r>/<s>/<k>/<d>  P/<r>/<s>/<k>/<d|->  I/<r>/<s>  L/<r>/<s>
+      F/<r>/<s>/<k>/<d>  P/<r>/<s>/<k>/<d|->  I/<r>/<s>[/<k>:<v> = the pair the implementation popped]  L/<r>/<s>
 m2m:  N/<pairs>  NR/<r>/<s>  A/<r>/<s>/<k>/<v>  R/<r>/<s>/<k>/<v>  S/<r>/<s>/<k>/<vals>
       D/<r>/<s>/<k>  U/<r>/<s>/<pairs>  UR/<r>/<s>/<r2>/<s2>  P/<r>/<s>/<k>/<nk>
 fd:   B/<fpairs> first, then  Ms/<k>/<fv> Md/<k> Mi/<fpairs> Mu/<fpairs> Mf/<k>/<fv> Mp/<k> Mo Mc
@@ -45,7 +45,9 @@ def showRet : Ret Nat → String
 
 /-! oto -/
 
-def dumpOto (s : OTO Nat) : String := s!"F{showPairs s.fwd}/I{showPairs s.inv}"
+/-- both sides sorted by key: the iteration order of the two dicts is not compared -/
+def dumpOto (s : OTO Nat) : String :=
+  s!"F{showPairs (s.fwd.mergeSort lePair)}/I{showPairs (s.inv.mergeSort lePair)}"
 
 def otoSrc? (r s kw : String) : Option (Src Nat) :=
   match r.toNat?, side? s, parsePairs? kw with
@@ -83,6 +85,9 @@ def otoTok? (tok : String) : Option (OtoCmd Nat) :=
   | ["I", r, s] => match r.toNat?, side? s with
     | some r, some s => some (.op r s .popitem)
     | _, _ => none
+  | ["I", r, s, kv] => match r.toNat?, side? s, parsePairs? kv with
+    | some r, some s, some [(k, v)] => some (.op r s (.popitemAs k v))
+    | _, _, _ => none
   | ["L", r, s] => match r.toNat?, side? s with
     | some r, some s => some (.op r s .clear)
     | _, _ => none
